@@ -1,5 +1,5 @@
 """C02 -- DL_POLY TABLE: layout model vs DLPoly_PairTabulation.write, writePotentials('DL_POLY', ..), potable."""
-import io, math
+import io, math, random
 import core, layout, p_c01
 from core import Broken
 from layout import q
@@ -40,6 +40,13 @@ def model_expr(case, pots=None):
     ids = {l: i for i, l in enumerate(case['labels'])}
     return '(match dlpoly_file %s %s %d with Some f => f | None => [ILit 999] end)' % (p_c01.coq_pots(pots if pots is not None else case['pots'], ids), q(case['cutoff']), case['nr'])
 
+def potable_corpus():
+    """fixed cases: both spellings of the target with row counts that are / are not divisible by four"""
+    out = []
+    for k, (t, nr) in enumerate([('DL_POLY', 13), ('DLPOLY', 10), ('DL_POLY', 12), ('DLPOLY', 8), ('DL_POLY', 6)]):
+        c = p_c01.gen_potable_case(random.Random(200 + k)); c['nr'] = nr; c['target'] = t; out.append(c)
+    return out
+
 def gen_potable_case(rng):
     c = p_c01.gen_potable_case(rng)
     c['nr'] = rng.choice([8, 12, 20, 24, 28, 10, 13])
@@ -52,13 +59,17 @@ def run_potable(case):
         tab, text = p_c01.run_potable(case, case['target'])
         return tab, text, None
     except ConfigurationException as e: return None, '', 'CfgErr'
+    except Exception as e:
+        if not isinstance(e, Broken): return None, '', 'failed: %s: %s' % (type(e).__name__, str(e)[:120])
+        b = e
+        return None, '', 'CfgErr' if 'configuration error' in b.detail else 'failed: ' + b.detail[-200:]
     except Broken as b:
         return None, '', 'CfgErr' if 'configuration error' in b.detail else 'failed: ' + b.detail[-200:]
 
 def correspond(ctx):
     rng = ctx['rng']
     cases = [gen_case(rng, ctx['thorough']) for _ in range(220 if ctx['thorough'] else 50)]
-    pcases = [gen_potable_case(rng) for _ in range(24 if ctx['thorough'] else 7)]
+    pcases = potable_corpus() + [gen_potable_case(rng) for _ in range(24 if ctx['thorough'] else 5)]
     dis = []
     runs = [run_recorded(c) for c in cases]
     exprs = [model_expr(c) for c in cases]
@@ -90,7 +101,11 @@ def correspond(ctx):
     dist = {'recorded_cases': len(cases), 'potable_cases': len(pcases), 'rejected_row_counts': sum(1 for c in allc if c['nr'] % 4),
             'nr_values': sorted({c['nr'] for c in allc})[:30], 'empty_potential_lists': sum(1 for c in cases if not c['pots']),
             'targets': {t: sum(1 for c in pcases if c['target'] == t) for t in ('DL_POLY', 'DLPOLY')}}
-    return {'evaluations': len(allc), 'cases': allc, 'nontrivial': core.distinct_count([c for c in allc if c.get('pots', c.get('potable'))]),
+    # how the numbers are printed (coq/model/NumFormat.v): the cells rendered in this run, edge values and random doubles
+    import fmt_common
+    nfmt, fdis, fdist = fmt_common.check_formats('C02', ctx['rng'], [4, 5], ctx['thorough'])
+    dis = fdis + dis
+    return {'number_format_cells': nfmt, 'number_format': fdist, 'evaluations': nfmt + len(allc), 'cases': allc, 'nontrivial': core.distinct_count([c for c in allc if c.get('pots', c.get('potable'))]),
             'rule': 'as C01 with row counts both divisible and not divisible by four (rejected ones must raise and write nothing), API and potable (DL_POLY and DLPOLY targets); '
                     'whole file text compared with the rendered model; non-trivial = at least one potential; distinct by canonical JSON',
             'samples': cases[:2] + pcases[:1], 'distribution': dist, 'disagreements': dis[:20], 'oracle_cases': allc}
@@ -199,6 +214,7 @@ def oracle(case):
     return fails
 
 def search_cases(rng, n):
+    for c in potable_corpus(): yield c
     for k in range(n // 3):
         yield gen_case(rng)
         if k % 6 == 0: yield gen_potable_case(rng)
